@@ -522,7 +522,7 @@ static int gen_msgs(prng_t* g, int maxlen) {
 
 static void outbuf_section(prng_t* g, int thorough) {
   const size_t MAXD = MI_MAX_DELAY_OUTPUT;
-  int n = thorough ? 200 : 24;
+  int n = thorough ? 200 : 12;
   for (int r = 0; r < n; r++) {
     size_t starts[] = { MAXD - 650, MAXD - 300, MAXD - 10, MAXD - 2, MAXD - 1, MAXD, MAXD + 5, 0 };
     size_t start = starts[r % 8];
